@@ -66,6 +66,20 @@ CLASSES = {0: "zst", 1: "u8", 2: "u64", 3: "[u8;4096]", 4: "align64", 5: "Box<[u
            # spawned thread, in the middle of the thread's epilogue — the panic handler then starts from there
            13: "struct with Drop that panics", 14: "struct with Drop that panics on a spawned thread only"}
 BOMBS = (13, 14)
+# mmap flags under which what mmap(len) mapped is exactly what munmap(addr, len) releases (Props/C06 `fixedExtentFlags`): MAP_PRIVATE,
+# MAP_ANONYMOUS, MAP_LOCKED, MAP_NORESERVE, MAP_POPULATE, MAP_NONBLOCK, MAP_STACK.  Outside: MAP_GROWSDOWN (the kernel extends the area
+# downwards on demand), MAP_HUGETLB / MAP_HUGE_* (length rounded), MAP_FIXED / MAP_FIXED_NOREPLACE (caller's address), shared / file.
+FIXED_EXTENT_FLAGS = 0x2 | 0x20 | 0x2000 | 0x4000 | 0x8000 | 0x10000 | 0x20000
+MAP_NAMES = {0x1: "MAP_SHARED", 0x10: "MAP_FIXED", 0x100: "MAP_GROWSDOWN", 0x40000: "MAP_HUGETLB", 0x100000: "MAP_FIXED_NOREPLACE"}
+
+
+def fixed_extent(flags):
+    return flags is not None and (flags | FIXED_EXTENT_FLAGS) == FIXED_EXTENT_FLAGS and flags & 0x22 == 0x22
+
+
+def flag_names(flags):
+    bad = flags & ~FIXED_EXTENT_FLAGS
+    return "|".join([n for b, n in MAP_NAMES.items() if bad & b] + (["%#x" % (bad & ~sum(MAP_NAMES))] if bad & ~sum(MAP_NAMES) else []))
 # WHERE the closure panics (script token `panic_<site>`): "" a plain panic!; "e" / "o" / "d" inside an argument of tiny-std's
 # eprintln! / println! / dbg! — the thread then holds the library's stderr / stdout print lock while its panic handler runs;
 # "m" while holding guards of a tiny_std::sync::Mutex and RwLock of its own.  The property is the same for all of them: the
@@ -237,7 +251,7 @@ def parse_out(text):
             classes[int(w[1])] = (int(w[2]), int(w[3]))
         elif w[0] == "batch":
             cur = {"n": int(w[2]), "spawn": {}, "join": {}, "drop": set(), "runs": {}, "before": None, "after": None, "ended": False, "drops": None,
-                   "bombs": None}
+                   "bombs": None, "mapdiff": []}
             batches[int(w[1])] = cur
         elif cur is None:
             continue
@@ -254,6 +268,8 @@ def parse_out(text):
                                       "made": int(w[6]) if len(w) > 6 else None}
         elif w[0] == "drops":
             cur["drops"] = (int(w[1]), int(w[2]))
+        elif w[0] == "mapdiff":
+            cur["mapdiff"].append((w[1], int(w[2], 16), int(w[3], 16), int(w[4])))
         elif w[0] == "bombs":
             cur["bombs"] = tuple(int(x) for x in w[1:5])
         elif w[0] == "end":
@@ -335,6 +351,14 @@ def analyze_batch(recs, exited, lo, hi, main, specs, cfg, classes, textb, nlines
                 insts[r["args"][2]].forgot += 1
             else:
                 insts[r["args"][2]].dmarks.append((r["entry"], k, r["pid"]))
+        if r["name"] in ("mremap", "mmap") and r["args"] and r["args"][0] and stack_ranges:
+            lo_, hi_ = r["args"][0], r["args"][0] + (r["args"][1] or 0)
+            fixed = r["name"] == "mmap" and len(r["args"]) > 3 and (r["args"][3] or 0) & 0x100010
+            if r["name"] == "mremap" or fixed:
+                for a_, i_ in stack_ranges.items():
+                    if i_.stack and i_.stack[0] == a_ and lo_ < a_ + i_.stack[1] and hi_ > a_ and getattr(i_, "t_munmap", None) is None and i_.tid is not None:
+                        problems.append(("stack", "%s by tid %d over [%#x, %#x) changes the extent of the stack mapping of id %d" % (
+                            r["name"] + ("(MAP_FIXED)" if fixed else ""), r["pid"], lo_, hi_, i_.id)))
         if r["name"] == "futex" and r["args"] and r["args"][0] in word_of:
             wi = word_of[r["args"][0]]
             if wi.tsm and wi.tsm[0] not in heap_live:
@@ -435,6 +459,10 @@ def analyze_batch(recs, exited, lo, hi, main, specs, cfg, classes, textb, nlines
             elif r["name"] == "mmap":
                 h_vm.add(r["entry"])
                 if st.nalloc == 2 and st.cur.stack is None and not st.cur.mmap_fail and len(r["args"]) >= 2 and r["args"][1] == STACK_LEN:
+                    st.cur.stack_flags = r["args"][3] if len(r["args"]) > 3 else None
+                    if not fixed_extent(st.cur.stack_flags):
+                        problems.append(("mapping-flags", "the stack of id %d is mapped with flags %#x: %s is outside the fixed-extent set — the kernel may map more (or "
+                                         "elsewhere) than the (addr, len) the thread will munmap" % (st.cur.id, st.cur.stack_flags or 0, flag_names(st.cur.stack_flags or 0))))
                     if r["ret"] is not None and r["err"] is None:
                         st.cur.stack = (r["ret"], r["args"][1], r["entry"])
                         stack_ranges[r["ret"]] = st.cur
@@ -507,6 +535,8 @@ def analyze_batch(recs, exited, lo, hi, main, specs, cfg, classes, textb, nlines
                     inst.edigest = aux
                 elif kind == "P":
                     inst.t_panic = r["entry"]
+                elif kind == "G":
+                    inst.grew = aux            # pages just below its stack mapping the thread could touch (0: EFAULT at once; 0x1000: window not free)
             elif is_heap(r):
                 ptr, op = r["args"][1], r["args"][3] & 1
                 if op == 1:
@@ -878,7 +908,24 @@ def judge_batch(bno, specs, insts, problems, stats, heap_before, heap_live, tb, 
                 bad.append(("heap-baseline", "live heap blocks %d -> %d, %d closures of panicked threads" % (b["blocks"], a["blocks"], len(leaked_expect))))
             quiet = stats["alloc_mmap"] == 0 and stats["alloc_munmap"] == 0 and stats["other_vm"] == 0
             if quiet and a["threads"] == 1 and (a["vm"] != b["vm"] or a["maps"] != b["maps"] or a["maphash"] != b["maphash"]):
-                bad.append(("vm-baseline", "address space not back at baseline: VmSize %d -> %d pages, mappings %d -> %d" % (b["vm"], a["vm"], b["maps"], a["maps"])))
+                # which ranges: the probe's range-by-range comparison of /proc/self/maps after the batch with the snapshot before it
+                what = []
+                for sign, lo_, hi_, perms in tb.get("mapdiff", [])[:12]:
+                    rel = ""
+                    for i_ in insts.values():
+                        if i_.stack and sign == "+":
+                            if hi_ == i_.stack[0]:
+                                rel = " — directly below the stack of id %d [%#x, %#x) that its thread unmapped at exit (flags %#x%s): the part by which the kernel " \
+                                      "extended that mapping (the thread could touch %s pages below it), never released" % (
+                                          i_.id, i_.stack[0], i_.stack[0] + i_.stack[1], getattr(i_, "stack_flags", 0) or 0,
+                                          "" if fixed_extent(getattr(i_, "stack_flags", None)) else ": " + flag_names(getattr(i_, "stack_flags", 0) or 0),
+                                          getattr(i_, "grew", "?"))
+                            elif lo_ < i_.stack[0] + i_.stack[1] and hi_ > i_.stack[0]:
+                                rel = " — inside the stack mapping of id %d [%#x, %#x)" % (i_.id, i_.stack[0], i_.stack[0] + i_.stack[1])
+                    what.append("%s [%#x, %#x) %d KiB perms=%s%s" % ("left behind" if sign == "+" else "gone", lo_, hi_, (hi_ - lo_) >> 10,
+                                                                  "".join(c if perms >> k & 1 else "-" for k, c in enumerate("rwxp")), rel))
+                bad.append(("vm-baseline", "address space not back at baseline: VmSize %d -> %d pages, mappings %d -> %d; %s" % (
+                    b["vm"], a["vm"], b["maps"], a["maps"], "; ".join(what) or "(no range-level difference recorded)")))
     return bad
 
 
@@ -916,6 +963,8 @@ def script_of(batches):
     for specs in batches:
         for sp in specs:
             verb = ("panic_" + sp["site"] if sp.get("site") else "panic") if sp["panic"] else "ret"
+            if sp.get("deep"):
+                verb = "deep_panic" if sp["panic"] else "deep"
             head = "t" if sp.get("parent") is None else "c %d" % sp["parent"]
             out.append("%s %d %s %d %d %s %d" % (head, sp["id"], verb, sp["d"], sp["class"], sp["action"], sp["d2"]))
         out.append("go")
@@ -1100,6 +1149,18 @@ def panic_site_sweep(r, rounds):
     return jobs
 
 
+def deep_sweep(r, rounds):
+    """the kernel-side EXTENT of the stack mapping against the extent the code records: one thread per batch (nothing else may map memory
+    meanwhile) that reaches a little below its stack mapping before it returns / panics — joined, dropped at once, dropped later.
+    Where the mapping cannot grow every touch is refused (EFAULT) and nothing changes; where it can, what grew must be gone afterwards."""
+    out = []
+    for _ in range(rounds):
+        for pan in (False, True):
+            for act, d, d2 in (("join", 0, 0), ("dropnow", 300, 0), ("drop", 0, 3000)):
+                out.append([{"id": r.below(64), "panic": pan, "deep": True, "site": "", "d": d, "class": r.choice([0, 2, 3, 5]), "action": act, "d2": d2}])
+    return out
+
+
 NESTED_CLASSES = [0, 1, 2, 3, 4, 5, 6, 10, 12]     # a child's value may be dropped by its parent, a spawned thread: no panicking destructors there
 
 
@@ -1233,9 +1294,9 @@ def account(ctx, items, exe, pid_kinds=None, inject=None):
         # `model-map`: the observation could not be mapped onto the model's events (an allocation / futex operation the mapping
         # does not know); `layout-model`: the shared block has another (not unsound) size than the model computes.
         # Both are a broken correspondence, not a failing input: reported as such, below.
-        mmk = sorted({k for k, _ in it["judge"] if k in ("model-map", "layout-model")})
-        mm = [w for k, w in it["judge"] if k in ("model-map", "layout-model")]
-        kinds = [k for k in kinds if k not in ("model-map", "layout-model")]
+        mmk = sorted({k for k, _ in it["judge"] if k in ("model-map", "layout-model", "mapping-flags")})
+        mm = [w for k, w in it["judge"] if k in ("model-map", "layout-model", "mapping-flags")]
+        kinds = [k for k in kinds if k not in ("model-map", "layout-model", "mapping-flags")]
         if pid_kinds is not None:
             kinds_rel = [k for k in kinds if k in pid_kinds or k in ("probe", "heap")]
         else:
@@ -1416,6 +1477,13 @@ ASSUMPTIONS = [
     "a thread that panics inside an argument of eprintln! / println! / dbg! dies holding that print lock (nothing unwinds; observation, outside "
     "C05/C06): later prints to the stream from any thread would block, so the scenarios carry at most one such thread per lock per probe process "
     "and the probe itself never prints through the library",
+    "fixed-extent mappings: the model's ledger treats the stack as one resource released by munmap(addr, len) of exactly what mmap returned; that is "
+    "the kernel's behaviour only for private anonymous mappings at a kernel-chosen address without MAP_GROWSDOWN / MAP_HUGETLB / MAP_HUGE_* / MAP_FIXED / "
+    "MAP_FIXED_NOREPLACE (accepted: MAP_PRIVATE|MAP_ANONYMOUS plus MAP_STACK, MAP_NORESERVE, MAP_POPULATE, MAP_NONBLOCK, MAP_LOCKED). Checked three ways: the "
+    "flag word extracted from the source (Gen stackMapFlags, Props/C06 gen_stack_mapping_fixed_extent), the flag word of every stack mmap in the strace "
+    "stream (mapping-flags), no mremap / MAP_FIXED mmap over a live stack and munmap with exactly the mmap's (addr, len); and searched for a failing "
+    "input on every run: `deep` threads touch the pages just below their stack mapping (read(/dev/zero, addr): EFAULT where the mapping cannot grow) and "
+    "/proc/self/maps after the batch is compared range by range with the snapshot before it (mapdiff)",
     "reads through dangling pointers are not observable as such: the allocator wrapper fills released blocks with 0xDD and quarantines them, so that "
     "such a read yields garbage that shows up as a wrong release / system-call argument or a crash; releases and futex calls on released blocks are observed directly",
 ]
@@ -1506,6 +1574,11 @@ def calibrate(exe, cfg0, want):
             if k in want:
                 out[k] = v
                 how[k] = "join on a running thread: futex(word, op=%s, val=%s) parked" % ("FUTEX_WAIT|PRIVATE" if wp else "FUTEX_WAIT", je)
+    if "stackMapFlags" in want:
+        its, _ = one("t 1 ret 0 2 join 0\ngo\n")
+        v = getattr(its[0]["insts"][1], "stack_flags", None) if its else None
+        out["stackMapFlags"] = v
+        how["stackMapFlags"] = "the flag word of the stack mmap spawn issued: %s" % (hex(v) if v is not None else None)
     if "dropExpect" in want:
         # one thread per batch, handle dropped after the same delay the closure sleeps: some of them meet the thread between its
         # CAS and its exit
@@ -1630,6 +1703,12 @@ def run(ctx, which="C05"):
     pitems = run_scenarios(ctx, exes["dyn"], cfg, 0, 0, 0, "panic-site-sweep", jobs=panic_site_sweep(ctx.rng, 1 if quick else 6))
     ctx.extra["panic_site_sweep_batches"] = len(pitems)
     items += pitems
+    # extent of the stack mapping: threads that reach below it
+    ditems = run_scenarios(ctx, exes["dyn"], cfg, 0, 0, 0, "deep-stack", jobs=[[b] for b in deep_sweep(ctx.rng, 1 if quick else 4)])
+    ctx.extra["deep_stack_batches"] = len(ditems)
+    ctx.extra["deep_stack_pages_touched_below_the_mapping"] = sorted({getattr(i, "grew", None) for it in ditems if not it.get("missing")
+                                                                      for i in it["insts"].values() if getattr(i, "grew", None) is not None})
+    items += ditems
     # thread topology: spawned threads that spawn, join and drop threads themselves (depth 2 and 3)
     nb = [gen_nested_batch(ctx.rng) for _ in range(60 if quick else 700)] + nested_sweep(ctx.rng, 1 if quick else 6)
     njobs = [one_per_print_lock(nb[i:i + 6]) for i in range(0, len(nb), 6)]
@@ -1682,7 +1761,8 @@ def batches_of_script(script):
             par = None
             if w[0] == "c":
                 par, w = int(w[1]), [w[0]] + w[2:]
-            cur.append({"id": int(w[1]), "panic": w[2].startswith("panic"), "site": w[2][6:] if w[2].startswith("panic_") else "",
+            cur.append({"id": int(w[1]), "panic": w[2].startswith("panic") or w[2] == "deep_panic", "deep": w[2].startswith("deep"),
+                        "site": w[2][6:] if w[2].startswith("panic_") else "",
                         "d": int(w[3]), "class": int(w[4]), "action": w[5], "d2": int(w[6]), "parent": par})
     return out
 
